@@ -590,7 +590,10 @@ def app_case(role, flavour, name):
                 good = bytes(composite(route('fine')))
                 md = {'truncated-entry': good[:-2], 'length-past-end': good[:1] + b'\x00\xff\xff' + good[4:], 'lone-byte': b'\xfe',
                       'zero-length-name': b'\x00\x00\x00\x00', 'non-utf8-route': bytes(composite(route(b'\xff\xfe\xfd'))) if False else good[:-4] + b'\xff\xfe\xfd\xfc',
-                      'tag-length-past-end': good[:4] + b'\xf0' + good[5:], 'huge-custom-name': b'\x7f' + b'x' * 20}[gk]
+                      'tag-length-past-end': good[:4] + b'\xf0' + good[5:], 'huge-custom-name': b'\x7f' + b'x' * 20,
+                      # routing items with empty tags (a tag is a length byte + that many bytes; length 0 is encodable)
+                      'zero-length-tag-first': good[:1] + (6).to_bytes(3, 'big') + b'\x00\x04fine', 'zero-length-tag-last': good[:1] + (6).to_bytes(3, 'big') + b'\x04fine\x00',
+                      'only-zero-length-tags': good[:1] + (3).to_bytes(3, 'big') + b'\x00\x00\x00', 'empty-routing-item': good[:1] + (0).to_bytes(3, 'big')}[gk]
                 extra[meth] = ('special', lambda h, p, routing=routing, meth=meth: getattr(routing, meth)(p))
                 raw = {'request_response': R.enc_request(R.REQUEST_RESPONSE, sid, b'boom', md),
                        'request_stream': R.enc_request(R.REQUEST_STREAM, sid, b'boom', md, n=2),
@@ -694,7 +697,8 @@ APP_CASES_SERVER = (['handler-%s-raises%s' % (m, a) for m in ('request_response'
                        'generator-raises', 'async-generator-raises', 'channel-subscriber-raises-S', 'channel-subscriber-raises-N',
                        'channel-subscriber-raises-C', 'channel-subscriber-raises-E']
                     + ['router-raises-%s' % m for m in ('request_response', 'request_stream', 'request_channel', 'request_fire_and_forget', 'on_metadata_push')]
-                    + ['router-garbage:%s:%s' % (g, m) for g in ('truncated-entry', 'length-past-end', 'lone-byte', 'zero-length-name', 'non-utf8-route', 'tag-length-past-end', 'huge-custom-name')
+                    + ['router-garbage:%s:%s' % (g, m) for g in ('truncated-entry', 'length-past-end', 'lone-byte', 'zero-length-name', 'non-utf8-route', 'tag-length-past-end', 'huge-custom-name',
+                                                                      'zero-length-tag-first', 'zero-length-tag-last', 'only-zero-length-tags', 'empty-routing-item')
                        for m in ('request_response', 'request_stream', 'request_channel', 'request_fire_and_forget', 'on_metadata_push')]
                     + ['%s-%s' % (a, wh) for a in ('rx3', 'rx4') for wh in ('observable-errors-at-once', 'observable-errors-after-one', 'response-errors')]
                     + ['publisher-errors', 'on_error-raises']
